@@ -1,7 +1,8 @@
 import Bptk.Core.C16
 /-! Line-protocol driver for the C16 instance-isolation model:  `lake env lean --run Drive/C16.lean < lines`
 
-`cfg <0|1> <0|1> <0|1>`     instancesShareNothing restoreOnlyAddressed freshObjects
+`cfg <0|1> <0|1> <0|1> <0|1>`  instancesShareNothing restoreOnlyAddressed freshObjects sharedIsScenarioDicts
+`fac <settings>`            the factory's output for the following lines: the scenario-level settings every product starts with
 `run <k> <ad> <ops>`        k initial instances, ad = 1: external state adapter; ops: comma list of `<id><code>[<settings>]` (or `-`);
                             codes: b s (begin-session / run-step, optional settings) r e k x t c (create) R (/run, optional settings)
                             q (/equations) a (/agents); settings: `<key>=<value>` joined by `+` (keys 0,1 constants; 2,3 points)
@@ -59,26 +60,32 @@ def respStr (vals : Bool) : Option Resp → String
   | some .noAgents => "noagents"
   | some .saveError => "saveerr"
 
-def stepLine (c : Cfg) (line : String) : Cfg × String :=
+def bit (s : String) : Bool := s == "1" || s == "0"
+
+def stepLine (cf : Cfg × Obj) (line : String) : (Cfg × Obj) × String :=
+  let c := cf.1
   match line.trimAscii.toString.splitOn " " with
-  | ["cfg", v, w, f] =>
-      if (v == "1" || v == "0") && (w == "1" || w == "0") && (f == "1" || f == "0") then (⟨v == "1", w == "1", f == "1"⟩, "ok")
-      else (c, "bad-op")
+  | ["cfg", v, w, f, k] =>
+      if bit v && bit w && bit f && bit k then ((⟨v == "1", w == "1", f == "1", k == "1"⟩, cf.2), "ok") else (cf, "bad-op")
+  | ["fac", st] =>
+      match parseStore (if st == "-" then "" else st) with
+      | some scn => ((c, { scn := scn, mod := [], sess := none }), "ok")
+      | none => (cf, "bad-op")
   | [cmd, k, ad, ops] =>
-      if (cmd != "run" && cmd != "val") || (ad != "0" && ad != "1") then (c, "bad-op") else
+      if (cmd != "run" && cmd != "val") || (ad != "0" && ad != "1") then (cf, "bad-op") else
       match k.toNat?, (if ops == "-" then some [] else (ops.splitOn ",").mapM parseOp) with
       | some k, some ops =>
-          let s0 := Server.initAd k (ad == "1")
+          let s0 := Server.initF cf.2 k (ad == "1")
           let toks := (resps c s0 ops).map fun r => respStr (cmd == "val") r.2
-          (c, ",".intercalate (toks ++ [s!"made:{(final c s0 ops).made}"]))
-      | _, _ => (c, "bad-op")
-  | _ => (c, "bad-op")
+          (cf, ",".intercalate (toks ++ [s!"made:{(final c s0 ops).made}"]))
+      | _, _ => (cf, "bad-op")
+  | _ => (cf, "bad-op")
 
-partial def loop (h : IO.FS.Stream) (c : Cfg) : IO Unit := do
+partial def loop (h : IO.FS.Stream) (c : Cfg × Obj) : IO Unit := do
   let line ← h.getLine
   if line.isEmpty then return ()
   let (c', out) := stepLine c line
   IO.println out
   loop h c'
 
-def main : IO Unit := do loop (← IO.getStdin) ⟨true, true, true⟩
+def main : IO Unit := do loop (← IO.getStdin) (⟨true, true, true, false⟩, Obj.fresh)
